@@ -327,7 +327,10 @@ def case_strategy():
                            st.sampled_from(["string", "object-parsed", "object-parsed"])).map(
             lambda t: {"shape": shape, "channel": t[2], "eoe": t[1], "input": dict(t[0], **({"req": "r"} if shape == "groups" else {"subcommand": "a"} if shape == "subcommands" else {}))})
         path = st.tuples(value_strategy(d), st.booleans()).map(lambda t: {"shape": shape, "channel": "path", "eoe": t[1], "input": t[0]})
-        allc = st.one_of(argv, argv, argv, argv, env, string, doc, doc, gooddoc, gooddoc, baddoc, path)
+        # a well-formed command line that asks for the help or the configuration: the documented exit status 0
+        helpish = st.tuples(good_argv(shape), st.sampled_from(["--help", "-h", "--print_config", "--print_config=skip_null", "--print_config=skip_default"]), st.booleans()).map(
+            lambda t: {"shape": shape, "channel": "argv", "eoe": t[2], "input": list(t[0]) + [t[1]]})
+        allc = st.one_of(argv, argv, argv, argv, env, string, doc, doc, gooddoc, gooddoc, baddoc, path, helpish)
         if shape == "subcommands":
             # whole documents that choose subcommands level by level, with and without the section / the required argument of the inner one
             whole = st.tuples(st.sampled_from(WHOLE_SUBCOMMAND_DOCS), st.booleans(), st.sampled_from(["string", "object"])).map(
